@@ -227,6 +227,7 @@ nd::harnesses! {
     #[kani::unwind(10)] fn c14_eq_hash_mixed_3() { cstring_eq_hash::<3>(2, 0) }
     #[kani::unwind(7)] fn c14_cstr_borrowed_4() { cstr_borrowed::<4>() }
     #[kani::unwind(8)] fn c14_cstr_borrowed_5() { cstr_borrowed::<5>() }
+    #[kani::unwind(9)] fn c14_cstr_borrowed_6() { cstr_borrowed::<6>() }
 
     /// Negative twin: claims the buffer keeps bytes after an interior NUL.
     #[kani::unwind(7)]
